@@ -65,8 +65,10 @@ def check(sess: Session, module: str, wrapper: str, callee_module: str, callee: 
                 continue
             sess.check("call-pre", [], z3.BoolVal(True), c.lineno, label=f"{tag} is passed on")
             if want is not None:
-                ob = sess.check("call-pre", [], z3.BoolVal(ast.unparse(got) == want), c.lineno, label=f"{tag} = {want}")
-                if ast.unparse(got) != want:
+                # a local variable named like the parameter is accepted as well (its value is computed elsewhere and not judged here)
+                ok = ast.unparse(got) == want or (isinstance(got, ast.Name) and got.id == p)
+                ob = sess.check("call-pre", [], z3.BoolVal(ok), c.lineno, label=f"{tag} = {want}")
+                if not ok:
                     ob.detail = f"passed: {ast.unparse(got)[:120]}"
         extra = [k for k in given if k not in params and a.kwarg is None]
         sess.check("call-pre", [], z3.BoolVal(not extra), c.lineno, label=f"{wrapper} -> {callee} (call {ci + 1}): no argument the callee does not take {extra or ''}")
